@@ -928,6 +928,7 @@ func splitEvery(b []byte, n int) [][]byte {
 func init() {
 	runners["CONN"] = runConn
 	runners["CTRL"] = runCtrl
+	runners["GCTRL"] = runCtrl // the same run, for backoffController.next / reset as translated (Gen/Backoff.lean)
 	runners["FLOAT"] = runFloat
 	runners["MERGE"] = runMerge
 	runners["REG"] = runReg
